@@ -6,7 +6,7 @@ cd "$(dirname "$0")/.." || exit 2
 out=notes/seed_matrix.txt
 : > "$out.tmp"
 run_one() {
-  d="$1"; name=$(basename "$d")
+  d="$PWD/$1"; name=$(basename "$d")
   chk=$(/venv/bin/python - "$d" <<'PY'
 import json, sys, os
 m = json.load(open(os.path.join(sys.argv[1], 'meta.json')))
